@@ -236,7 +236,11 @@ def build_cases(rng, tier):
     cases = []
     curated = ["Hello *world*!", "# h #\n", "> a\nb\n", "- a\n\n  b\n", "|a|b|\n|-|-|\n|c|d|\n", "```\nx\n```\n", "a\r\nb\r\n", "*a\nb*\n",
                "[r]: /u\n[r] é**é**", "﻿---\nabc\n", "1. > - x\n", "\t\tx\n", ">\t\tx\n", "-\t\tx\n", "a  \nb\n", "- [ ] t\n- [x] u\n", "[^a]: n\n\nx[^a]\n",
-               "a@b.c x@y.z\n", "www.a.b http://c.d\n", "| a\\|b | `c\\|d` |\n|-|-|\n", "Setext\nh\n===\n", "<a@b.c> <http://x>\n", "~~~\nx\n", "> ```\n> x\n> ```\n"]
+               "a@b.c x@y.z\n", "www.a.b http://c.d\n", "| a\\|b | `c\\|d` |\n|-|-|\n", "Setext\nh\n===\n", "<a@b.c> <http://x>\n", "~~~\nx\n", "> ```\n> x\n> ```\n",
+               # delimiter runs that are consumed in part (the leftover text keeps the rest of the run), multi-line
+               # inlines followed by more inlines, hard break before a lazy line
+               "**foo*** bar\n", "x ***a** y\n", "> q\n> ***b* z\n", "___é__ w\n", "a __b___\n", "x **y**** z\n", "**a*\n", "*a**\n", "~~~a~~ b\n",
+               "`foo\nbar` baz\n", "x <span\nclass=\"a\"> y *z*\n", "> a ``b\n> c`` d\n", "> one\\\n  two *three*\n", "- a\\\n b `c`\n"]
     for d in curated:
         for o in ({}, dict(ALL_EXT)):
             cases.append((o, d.encode(), "curated"))
